@@ -44,20 +44,34 @@ func (f *Rtmp2MpegtsTimestampFilter) Do(frame *mpegts.Frame) {
 			f.basicAudioDts = frame.Dts
 		}
 		if frame.Dts < f.basicAudioDts {
-			Log.Warnf("[%s] audio dts invalid. dts=%d, base=%d, frame=%s", f.uk, frame.Dts, f.basicAudioDts, frame.DebugString())
-		} else {
-			frame.Dts -= f.basicAudioDts
+			Log.Warnf("[%s] audio dts below the first one of the track. dts=%d, base=%d, frame=%s", f.uk, frame.Dts, f.basicAudioDts, frame.DebugString())
 		}
+		frame.Dts = rebaseDts(frame.Dts, f.basicAudioDts)
 		frame.Pts = frame.Dts + 90*uint64(frame.Cts)
 	} else if frame.Sid == mpegts.StreamIdVideo {
 		if f.basicVideoDts == math.MaxUint64 {
 			f.basicVideoDts = frame.Dts
 		}
 		if frame.Dts < f.basicVideoDts {
-			Log.Warnf("[%s] video dts invalid. dts=%d, base=%d, frame=%s", f.uk, frame.Dts, f.basicVideoDts, frame.DebugString())
-		} else {
-			frame.Dts -= f.basicVideoDts
+			Log.Warnf("[%s] video dts below the first one of the track. dts=%d, base=%d, frame=%s", f.uk, frame.Dts, f.basicVideoDts, frame.DebugString())
 		}
+		frame.Dts = rebaseDts(frame.Dts, f.basicVideoDts)
 		frame.Pts = frame.Dts + 90*uint64(frame.Cts)
 	}
+}
+
+// mpegtsClockModulus mpegts carries pts and dts modulo 2^33
+const mpegtsClockModulus uint64 = 1 << 33
+
+// rebaseDts
+//
+// dts - base. A dts below the base (the publisher restarted its clock, or the 32 bit rtmp timestamp wrapped)
+// keeps its distance to the base on the 33 bit clock of mpegts, so that every timestamp of the track is the
+// published one plus one and the same constant for a demuxer (it used to be left as it was: a step back by
+// 500ms came out as a step forward by (base-500ms))
+func rebaseDts(dts uint64, base uint64) uint64 {
+	if dts >= base {
+		return dts - base
+	}
+	return (mpegtsClockModulus - (base-dts)%mpegtsClockModulus) % mpegtsClockModulus
 }
